@@ -228,7 +228,13 @@ def translate(cfg, outdir):
                             ex = [x for x in f.get("inner", []) if x.get("kind") != "FullComment"]
                             if ex:
                                 em.field_inits[(cls, f["name"])] = ex[-1]
-        sig, text, unit = em.emit_function(node, cname, cls if node["kind"] != "FunctionDecl" else None, static)
+        em.stop_at_call = u.get("stop_at_call")
+        try:
+            sig, text, unit = em.emit_function(node, cname, cls if node["kind"] != "FunctionDecl" else None, static)
+        except Unsupported as e:
+            raise Unsupported("%s [unit %s]" % (e, u["name"]))
+        finally:
+            em.stop_at_call = None
         em.unit_names.add(cname)
         rng = node.get("range", {})
         b = rng.get("begin", {})
@@ -417,8 +423,12 @@ def translate(cfg, outdir):
         for k in range(unit.loops):
             m = "VF_LOOP_%s_%d" % (cname, k)
             c.append("#ifndef %s\n#define %s\n#endif" % (m, m))
-        c.append("/* ---- unit %s ---- */" % cname)
+        # a plain lemma harness (no dfcc) may stand in for contract replacement by hand: -DVF_OVERRIDE_<cname> drops the
+        # unit's body so that the spec supplies a stub stating the unit's separately proved specification (the stub
+        # asserts the precondition it was proved under; the substitution is listed in check.json `trusted`)
+        c.append("/* ---- unit %s ---- */\n#ifndef VF_OVERRIDE_%s" % (cname, cname))
         c.append(text)
+        c.append("#endif")
     with open(os.path.join(outdir, "gen.c"), "w") as f:
         f.write("\n".join(c) + "\n")
     info = {"units": meta,
@@ -428,7 +438,7 @@ def translate(cfg, outdir):
                        "opt": tm.opt_insts, "set": tm.set_insts,
                        "ilist": {k: list(v) for k, v in tm.ilist_insts.items()},
                        "map": {k: list(v) for k, v in tm.map_insts.items()}},
-            "exceptions": sorted(em.exc_kinds)}
+            "exceptions": sorted(em.exc_kinds), "truncated_at_stop_call": sorted(set(em.truncated))}
     with open(os.path.join(outdir, "gen.json"), "w") as f:
         json.dump(info, f, indent=1)
     return info
